@@ -482,7 +482,13 @@ impl<'a> Gen<'a> {
             // the two ends of the price domain as creation requests (created, never placed): 0 is a multiple of every tick
             // size, 2^32-1 of the tick sizes that divide it
             let price = if self.r.chance(0.5) { 0 } else { PMAX };
-            self.push(Op::Create { a, bid, vol, trader: 401, price: Some(price) });
+            // ... except where such an order is an ordinary resting order (a buy at 0, a sell at 2^32-1 on a grid that
+            // contains it): those are placed too, at once or later (the executor refuses the placement otherwise)
+            if self.r.chance(0.5) {
+                self.push(Op::CreatePlace { a, bid: price == 0, vol, trader: 402, price: Some(price) });
+            } else {
+                self.push(Op::Create { a, bid, vol, trader: 401, price: Some(price) });
+            }
             return;
         }
         if self.r.chance(0.5) {
